@@ -41,9 +41,9 @@ def build(layout):
         elif kind == 'rekey_failed':
             # the controller's own IKE_SA rekey attempt is refused with TEMPORARY_FAILURE (the peer was busy with its own DPD exchange)
             e, a = ep.entry, ep.obj
-            world.ENV.now = a.start_dpd_at + 1
+            world.ENV.now = a.start_dpd_at + 3600
             dreq = ep.call(a.check_dead_peer_detection_timer)
-            world.ENV.now = e.rekey_ike_sa_at + 1
+            world.ENV.now = e.rekey_ike_sa_at + 10
             with c.E:
                 rreq = e.check_rekey_ike_sa_timer()
             tf = ep.call(a.process_message, rreq)
@@ -123,14 +123,14 @@ def h_route(layout, sender_idx, kind):
     elif kind == 'del_ike':
         if a.state != S.ESTABLISHED:
             return ['n/a']
-        world.ENV.now = a.delete_ike_sa_at + 1
+        world.ENV.now = a.delete_ike_sa_at + 3600
         d0 = bytes(ep.call(a.check_rekey_ike_sa_timer))
         crypto = a.my_crypto
     else:   # dpd from the live IKE_SA of that initiator
         live = a.new_ike_sa if ep.kind in ('rekeyed_deleted',) else a
         if live.state != S.ESTABLISHED:
             return ['n/a']
-        world.ENV.now = live.start_dpd_at + 1
+        world.ENV.now = live.start_dpd_at + 3600
         d0 = bytes(ep.call(live.check_dead_peer_detection_timer))
         crypto = live.my_crypto
     spi_i, spi_r = eng.sym_bytes('spi_i', 8), eng.sym_bytes('spi_r', 8)
@@ -259,7 +259,7 @@ def h_retransmit(scenario, copies):
     c.handshake(ep, upto=4)
     other = c.new_initiator()
     a = ep.obj
-    world.ENV.now = a.rekey_ike_sa_at + 1
+    world.ENV.now = a.rekey_ike_sa_at + 10
     req = ep.call(a.check_rekey_ike_sa_timer)
     res = None
     for i in range(copies[0]):
